@@ -3,6 +3,7 @@
   (PyTreesGen/C17.lean) and the hand-written model (`Node.leafUpdate`, `Node.leafInit`).
 -/
 import PyTreesModel.Tree
+import PyTreesModel.Names
 import PyTreesGen.C17
 
 open Node
@@ -47,3 +48,34 @@ theorem C17_gen_timer_update (i : Nat) (e : Env) (w : Store) (d fin : Int) :
 
 theorem C17_gen_timer_initialise (e : Env) (d fin : Int) :
     leafInit e (.timer d fin) = .timer d (Gen.Timer_initialise d e.now) := rfl
+
+
+/-! ### `Blackboard.key` / `Blackboard.key_with_attributes` (the name → key, attribute-path split used when the
+    blackboard-checking behaviours and the idioms register their keys) against the model's `splitName` -/
+
+theorem Py.split1_dot (l : List Char) : Py.split1 l '.' = Names.splitDots l := rfl
+
+theorem splitDots_ne_nil (l : List Char) : Names.splitDots l ≠ [] := by
+  induction l with
+  | nil => simp [Names.splitDots]
+  | cons c cs ih =>
+    simp only [Names.splitDots, List.foldr_cons] at ih ⊢
+    split
+    · simp
+    · split <;> simp
+
+theorem C17_gen_blackboard_key (name : String) :
+    (splitName name).1 = String.ofList (Gen.Blackboard_key name.toList) := by
+  simp only [splitName, Gen.Blackboard_key, Py.split1_dot, Py.item0]
+  cases h : Names.splitDots name.toList with
+  | nil => exact absurd h (splitDots_ne_nil _)
+  | cons k p => simp
+
+theorem C17_gen_blackboard_key_with_attributes (name : String) :
+    (Gen.Blackboard_key_with_attributes name.toList).1 = (splitName name).1.toList ∧
+    (Gen.Blackboard_key_with_attributes name.toList).2
+      = ['.'].intercalate ((splitName name).2.map String.toList) := by
+  simp only [splitName, Gen.Blackboard_key_with_attributes, Py.split1_dot, Py.item0, Py.join, Py.dropL]
+  cases h : Names.splitDots name.toList with
+  | nil => exact absurd h (splitDots_ne_nil _)
+  | cons k p => simp [Function.comp_def]
